@@ -40,6 +40,15 @@ def h_gate(t, part):
     elif conf == 'coroutine-predicate':
         async def auth(a):
             return decide(a)
+    elif conf == 'partial-predicate':
+        # a predicate as an application writes it: it raises TypeError / KeyError on payloads of an unexpected shape
+        def auth(a):
+            seen.append(a)
+            return a['username'] == CRED['username'] and a['password'] == CRED['password']
+    elif conf == 'partial-coroutine-predicate':
+        async def auth(a):
+            seen.append(a)
+            return a['username'] == CRED['username'] and a['password'] == CRED['password']
     else:
         auth = False
     # the presented payload
@@ -69,11 +78,17 @@ def h_gate(t, part):
         allowed = payload == CRED
     elif conf == 'list':
         allowed = payload in (CRED, CRED2)
+    elif 'partial' in conf:
+        allowed = isinstance(payload, dict) and payload.get('username') == CRED['username'] and payload.get('password') == CRED['password']
     else:
         allowed = payload == CRED
     t.reached('gate')
     t.note(conf, pk, allowed)
-    if w.eio.contained:
+    raised = 'partial' in conf and bool(w.eio.contained)
+    if raised and not allowed and admin_members(w) != before:
+        return Fail('admin:gate:refused-gains-membership:predicate-raised', 'the predicate raised %r on payload %r; the client is a '
+                    'member of the admin namespace: %r' % (w.eio.contained[0][1], payload, admin_members(w)))
+    if w.eio.contained and not raised:
         return Fail('admin:gate:exception:%s' % type(w.eio.contained[0][1]).__name__, repr(w.eio.contained[0]))
     answers = [g for g in got if g[0] in (packet.CONNECT, packet.CONNECT_ERROR) and g[1] == ADMIN]
     accepted = any(g[0] == packet.CONNECT for g in answers)
@@ -265,8 +280,8 @@ def h_transparent(t, part):
 def gate_parts(tier):
     out = []
     for a in (False, True):
-        for conf in ('dict', 'list', 'predicate', 'coroutine-predicate', 'false'):
-            if conf == 'coroutine-predicate' and not a:
+        for conf in ('dict', 'list', 'predicate', 'coroutine-predicate', 'false', 'partial-predicate', 'partial-coroutine-predicate'):
+            if 'coroutine' in conf and not a:
                 continue
             modes = [('development', False)] if tier == 'quick' else [('development', False), ('development', True),
                                                                        ('production', False), ('production', True)]
